@@ -157,6 +157,23 @@ struct PairSpec {
     sys: System,
 }
 
+/// Requests that name a path which is a DIRECTORY on the hub (a file lives beneath it).
+fn dir_systems() -> Vec<PairSpec> {
+    let mut init = Files::new();
+    init.insert("d/x".into(), b"dx".to_vec());
+    let d1 = vec![put("d", Exp::Absent, X), Op::Get { path: "d".into() }, Op::List];
+    let d2 = vec![put("d", Exp::Absent, b"a-longer-first-upload"), put("d", Exp::HashOf(b"stale".to_vec()), Z), Op::List];
+    let d3 = vec![Op::Delete { path: "d".into(), expected: Exp::Absent }, Op::Get { path: "d/x".into() }];
+    let other = vec![put("d/y", Exp::Absent, Y)];
+    vec![
+        PairSpec { name: "D1 alone on {d/x}".into(), sys: System { init: init.clone(), programs: vec![d1.clone()], external: vec![] } },
+        PairSpec { name: "D2 alone on {d/x}".into(), sys: System { init: init.clone(), programs: vec![d2.clone()], external: vec![] } },
+        PairSpec { name: "D3 alone on {d/x}".into(), sys: System { init: init.clone(), programs: vec![d3], external: vec![] } },
+        PairSpec { name: "D1||Put(d/y) on {d/x}".into(), sys: System { init: init.clone(), programs: vec![d1, other.clone()], external: vec![] } },
+        PairSpec { name: "D2||Put(d/y) on {d/x}".into(), sys: System { init, programs: vec![d2, other], external: vec![] } },
+    ]
+}
+
 fn pair_systems(names: &[(&str, &str)], inits: &[bool]) -> Vec<PairSpec> {
     let mut out = Vec::new();
     for &wf in inits {
@@ -207,6 +224,7 @@ pub fn run(ctx: &Ctx, which: &str) -> ! {
         let mut specs = pair_systems(&all_pairs(), &[false, true]);
         specs.extend(malformed_systems());
         specs.extend(triple_systems());
+        specs.extend(dir_systems());
         let Some(spec) = specs.into_iter().find(|s| s.name == name) else { machinery_error(format!("unknown program pair {name}")) };
         let env = envs[0].lock().unwrap_or_else(|e| e.into_inner());
         let inst = c10_instant(&spec.sys);
@@ -277,6 +295,10 @@ pub fn run(ctx: &Ctx, which: &str) -> ! {
     };
     for spec in &specs {
         run_spec(spec, bound, false, &mut tot, &mut violations, &mut sample);
+    }
+    // requests whose path names a directory of the hub
+    for spec in dir_systems() {
+        run_spec(&spec, 2, false, &mut tot, &mut violations, &mut sample);
     }
     // three servers (a lock holder, a waiter queued behind it, and a late arrival) at bound 2
     for spec in triple_systems().into_iter().take(if thorough { 4 } else { 1 }) {
